@@ -5,17 +5,20 @@ import FP.Model.Search
 import FP.Props.C13
 import FP.Proofs.C15
 import FP.Proofs.MGSRange
+import FP.Proofs.MGSPartitionRange
 /-!
 # C15 — MinGenSet and MinSetCover return true optima whenever one exists
 
-Property theorems only (proofs in `FP/Proofs/{GenSetSpec,LPLemmas,MGS,MGSComplete,MGSPre,MSC,C15}.lean`).
+Property theorems only (proofs in `FP/Proofs/{GenSetSpec,LPLemmas,MGS,MGSComplete,MGSPre,MGSRange,
+MGSPartitionRangeCut,MGSPartitionRange,MSC,C15}.lean`).
 Vocabulary: `FP/Spec/GenSet.lean`.
 
 What is proven, in the order of the statement:
 
 * the MILP of `_create_solver(k)` (`mgsLP`) has a satisfying assignment **iff** a generating multiset of
   size `k` exists for the multiplicity the encoding can express (`mgs_feasible_iff`; both product helpers,
-  both weight types, partition constraints);
+  both weight types, partition constraints of equal lengths; `mgs_feasible_iff_partition`: of any lengths, as
+  long as they are non-empty and sum to `total` — `mgs_partition_sound_full`);
 * that multiplicity is `max_multiplicity` when `max_multiplicity ≤ total` (`mgs_effMult_eq`) and can be
   smaller otherwise — then solutions are lost (`mgs_cap_loses_solutions`);
 * the constructor's preprocessing (since fix 20bda28: complements only for multiplicity 1; `0`, `total` and
@@ -24,9 +27,10 @@ What is proven, in the order of the statement:
 * a search over a range returns the true optimum of that range (`mgs_returns_optimum`); the optimum is at
   most `#distinct numbers + 1` (`genset_exists`); the range of the code (since fix 6c30e65
   `range(lb, max(lb, upper) + 1)`) **always contains the optimum** when there are no partition constraints
-  (`mgs_range_contains_optimum`) — with partition constraints this is kept as a statement
-  (`mgs_range_contains_optimum_partition_Statement`); `[1, 2, 4]`, total `7` is now solved
-  (`mgs_range_regression_124`);
+  (`mgs_range_contains_optimum`) and also with partition constraints that are number partitions of `total`
+  (`mgs_range_contains_optimum_partition`: non-empty, non-negative parts, integral for `weight_type=int`; neither
+  of the two extra hypotheses can be dropped: `mgs_range_empty_constraint`, `mgs_range_fractional_constraint`);
+  `[1, 2, 4]`, total `7` is now solved (`mgs_range_regression_124`);
 * `mscLP`: satisfying assignments are the covers, the objective is the weight, an optimum is a
   minimum-weight cover (`msc_sound`, `msc_complete`, `msc_objective`, `msc_opt_transfer`).
 -/
@@ -58,14 +62,19 @@ theorem mgs_partition_sound (inp : MGSInput) (k : Nat) (a : Asg) (h : Sat a (mgs
       ∀ j, j < (cons[c]).length → partSum assign (mgsGen a k) j = (cons[c]).getD j 0 :=
   mgs_partition_sound_proof inp k a h cons hp c hc
 
-/-- the statement one would like for constraints with fewer than `t` parts: the elements sent to a
-non-existing part carry the value 0 and can be re-assigned. Not proven (needs `Σ con = total`, which
-the constructor checks but the LP model does not know); `mgs_feasible_iff` covers constraints of
-equal length. -/
-def mgs_partition_sound_FullStatement : Prop :=
-  ∀ (inp : MGSInput) (k : Nat) (a : Asg), Sat a (mgsLP inp k) →
-    ∀ cons, inp.partition = some cons → (∀ con ∈ cons, con ≠ [] ∧ con.sum = inp.total) →
-      ∀ con ∈ cons, RespectsPartition (mgsGen a k) con
+/-- constraints with fewer than `t` parts: the elements the LP sends to a part without a sum row carry the
+value 0 (`Σ con = total = Σ g`, all `g_i ≥ 0`) and are re-assigned to part 0 — **every satisfying assignment
+respects every non-empty partition constraint that sums to `total`**, whatever the lengths -/
+theorem mgs_partition_sound_full (inp : MGSInput) (k : Nat) (a : Asg) (h : Sat a (mgsLP inp k))
+    (cons : List (List Rat)) (hp : inp.partition = some cons)
+    (hcons : ∀ con ∈ cons, con ≠ [] ∧ con.sum = inp.total) :
+    ∀ con ∈ cons, RespectsPartition (mgsGen a k) con := by
+  intro con hcon
+  obtain ⟨c, hc, rfl⟩ := List.mem_iff_getElem.1 hcon
+  obtain ⟨asg, ha1, _, ha3⟩ := mgs_partition_sound_proof inp k a h cons hp c hc
+  obtain ⟨⟨h1, h2, _⟩, _⟩ := mgs_sound_proof inp k a h
+  obtain ⟨hne, hs⟩ := hcons _ hcon
+  exact mgsp_reassign _ _ asg hne h2 (by rw [h1, hs]) (by simp [mgsGen, ha1]) ha3
 
 /-! ### (c) completeness of the encoding -/
 
@@ -107,6 +116,14 @@ theorem mgs_feasible_iff (inp : MGSInput) (k : Nat) (hside : MgsSide inp)
   · rintro ⟨g, rfl, hg⟩
     obtain ⟨a, ha, _⟩ := mgs_complete_multiset inp g hg hside
     exact ⟨a, ha⟩
+
+/-- **the same for partition constraints of any lengths** that are non-empty and sum to `total` (what the
+constructor checks, plus `len(con) ≥ 1`): the LP pads every constraint to `t = max len` parts, only zero-valued
+elements can land in a padded part -/
+theorem mgs_feasible_iff_partition (inp : MGSInput) (k : Nat) (hside : MgsSide inp)
+    (hcons : ∀ cons, inp.partition = some cons → ∀ con ∈ cons, con ≠ [] ∧ con.sum = inp.total) :
+    (∃ a, Sat a (mgsLP inp k)) ↔ ∃ g : List Rat, g.length = k ∧ MgsSolution inp g :=
+  mgsp_feasible_iff inp k hside hcons
 
 /-- `total < max_multiplicity` loses solutions: numbers `3/8, 1/4, 1/8`, total `1`, multiplicity `3` are
 generated by `{1/8, 7/8}`, but the helper gets one bit (`ub = total = 1`), the LP for `k = 2` is
@@ -239,15 +256,79 @@ theorem mgs_range_contains_optimum (inp : MGSInput) (σ : Nat → Status) (hσ :
   rw [mgs_search_finds_least inp σ hσ hside huni lb _ m hm1 hm3 hm4, mgsHi_none inp lb hp]
   omega
 
-/-- the same with partition constraints (`upper = len(set(numbers)) + 1 + Σ (len(con) − 1)`). Argument, not
-formalised: lay every constraint out as consecutive intervals of `[0, total]` and the sorted numbers as
-prefixes; the common refinement has at most `upper` pieces, every part and every number is a union of
-pieces. Checked by the brute-force oracle of `harness/props/c15.py` only. -/
-def mgs_range_contains_optimum_partition_Statement : Prop :=
+/-- **the range of the code contains the optimum, with partition constraints**
+(`upper = len(set(numbers)) + 1 + Σ (len(con) − 1)`, multiplicity 1 as the constructor enforces; data as the
+docstring asks: numbers within `[0, total]`, every constraint a number partition of `total` — at least one part,
+parts non-negative, `Σ con = total` —, everything integral for `weight_type=int`; constraints may have different
+lengths, zero parts, repeated break points): with a faithful solver
+`for k in range(lowerbound, max(lowerbound, upper) + 1)` returns the least solution size `≥ lowerbound`.
+Lay every constraint out as consecutive intervals of `[0, total]` and the numbers as prefixes; cutting `[total]`
+at every distinct number and every inner prefix sum gives exactly `upper` pieces (`mgsp_pieces`), every number
+and every part is a run of consecutive pieces; larger sizes by padding with zeros. -/
+theorem mgs_range_contains_optimum_partition (inp : MGSInput) (σ : Nat → Status) (hσ : Faithful inp σ)
+    (hd : MgsData inp) (hm : inp.maxMult = 1)
+    (hcons : ∀ cons, inp.partition = some cons → ∀ con ∈ cons,
+      con ≠ [] ∧ con.sum = inp.total ∧ (∀ x ∈ con, 0 ≤ x) ∧ (inp.weightInt = true → AllInt con))
+    (lb : Nat) :
+    ∃ m, (stopSearch σ lb (mgsHi inp lb)).solved = some m ∧ SolvableAt inp m ∧ lb ≤ m ∧
+      ∀ j, lb ≤ j → j < m → ¬ SolvableAt inp j :=
+  mgsp_range_proof inp σ hσ hd hm hcons lb
+
+/-- the statement as it was first written down (no `con ≠ []`, no integrality of the constraints) — false, see
+the next two theorems -/
+def mgs_range_contains_optimum_partition_FirstStatement : Prop :=
   ∀ (inp : MGSInput) (σ : Nat → Status), Faithful inp σ → MgsData inp → inp.maxMult = 1 →
     (∀ cons, inp.partition = some cons → ∀ con ∈ cons, con.sum = inp.total ∧ ∀ x ∈ con, 0 ≤ x) →
     ∀ lb, ∃ m, (stopSearch σ lb (mgsHi inp lb)).solved = some m ∧ SolvableAt inp m ∧ lb ≤ m ∧
       ∀ j, lb ≤ j → j < m → ¬ SolvableAt inp j
+
+/-- **`con ≠ []` cannot be dropped.** An empty constraint passes the constructor exactly when `total = 0`; "every
+element of the generating set is used in exactly one part" then only holds for the empty multiset, so under the
+other hypotheses the search returns a least solution size **iff `lowerbound = 0`** (python's default is 1:
+`MinGenSet([], 0, partition_constraints=[[]]).solve()` is `False`, rightly) -/
+theorem mgs_range_empty_constraint (inp : MGSInput) (σ : Nat → Status) (hσ : Faithful inp σ)
+    (hd : MgsData inp) (hm : inp.maxMult = 1)
+    (hcons : ∀ cons, inp.partition = some cons → ∀ con ∈ cons, con.sum = inp.total ∧ ∀ x ∈ con, 0 ≤ x)
+    (cons : List (List Rat)) (hp : inp.partition = some cons) (hempty : [] ∈ cons) (lb : Nat) :
+    (∃ m, (stopSearch σ lb (mgsHi inp lb)).solved = some m ∧ SolvableAt inp m ∧ lb ≤ m ∧
+      ∀ j, lb ≤ j → j < m → ¬ SolvableAt inp j) ↔ lb = 0 := by
+  constructor
+  · rintro ⟨m, _, hs, hle, _⟩
+    rcases Nat.eq_zero_or_pos m with h0 | hpos
+    · omega
+    · exact absurd hs (mgsp_empty_constraint_unsolvable inp cons hp hempty m hpos)
+  · rintro rfl
+    have hz : inp.total = 0 := by
+      have := (hcons cons hp [] hempty).1
+      rw [← this]; rfl
+    obtain ⟨h1, h2⟩ := mgsp_range_zero inp σ hσ hd hm hcons hz
+    exact ⟨0, h1, h2, Nat.le_refl _, fun j _ hj => by omega⟩
+
+/-- **integrality of the constraints cannot be dropped** for `weight_type=int`: total `1`, constraint
+`[1/2, 1/2]` satisfies every other hypothesis and has no solution of any size (python:
+`MinGenSet([], 1, weight_type=int, partition_constraints=[[0.5, 0.5]]).solve()` is `False`, rightly) -/
+theorem mgs_range_fractional_constraint :
+    let inp : MGSInput := { numbers := [], total := 1, weightInt := true, partition := some [[1/2, 1/2]] }
+    MgsData inp ∧ inp.maxMult = 1 ∧
+      (∀ cons, inp.partition = some cons → ∀ con ∈ cons, con ≠ [] ∧ con.sum = inp.total ∧ ∀ x ∈ con, 0 ≤ x) ∧
+      ∀ m, ¬ SolvableAt inp m := by
+  intro inp
+  refine ⟨⟨by decide +kernel, fun x hx => by simp [inp] at hx, by decide, Or.inl rfl,
+    fun _ => ⟨fun x hx => by simp [inp] at hx, 1, rfl⟩⟩, rfl, ?_, mgsp_fractional_constraint_unsolvable⟩
+  intro cons hc con hcon
+  cases hc
+  rw [List.mem_singleton.1 hcon]
+  exact ⟨by simp, by decide +kernel, by decide +kernel⟩
+
+/-- hence the first statement is false (both witnesses refute it; here the fractional one) -/
+theorem mgs_range_first_statement_false : ¬ mgs_range_contains_optimum_partition_FirstStatement := by
+  intro h
+  obtain ⟨hd, hm, hc, hno⟩ := mgs_range_fractional_constraint
+  obtain ⟨σ, hσ⟩ := mgsp_faithful_exists
+    { numbers := [], total := 1, weightInt := true, partition := some [[1/2, 1/2]] }
+  obtain ⟨m, _, hs, _⟩ := h _ σ hσ hd hm
+    (fun cons hp con hcon => ⟨(hc cons hp con hcon).2.1, (hc cons hp con hcon).2.2⟩) 1
+  exact hno m hs
 
 /-- **regression for fix 6c30e65.** numbers `[1, 2, 4]`, total `7`, defaults: `{1, 2, 4}` is a solution of
 size `3`, no smaller one exists, the loop is now `range(1, 5)` and every faithful solver makes `solve()`
@@ -351,6 +432,64 @@ example : ∃ a, Sat a (mgsLP ⟨[3, 5, 6], 7, true, 1, some [[3, 4], [1, 6]]⟩
     rcases hcon with rfl | rfl
     · exact ⟨[0, 0, 1], rfl, by decide, by decide +kernel⟩
     · exact ⟨[0, 1, 1], rfl, by decide, by decide +kernel⟩
+
+/-- the hypotheses of `mgs_range_contains_optimum_partition` are satisfiable and its conclusion is not trivial:
+numbers `[1, 2, 4]`, total `7`, constraints `[[3, 4], [0, 1, 6]]` (different lengths, a zero part):
+`upper = 3 + 1 + 1 + 2 = 7`, the loop is `range(1, 8)`, every faithful solver returns size `3` (`{1, 2, 4}`) -/
+example : let inp : MGSInput := ⟨[1, 2, 4], 7, true, 1, some [[3, 4], [0, 1, 6]]⟩
+    mgsHi inp 1 = 8 ∧ ∀ σ, Faithful inp σ → (stopSearch σ 1 (mgsHi inp 1)).solved = some 3 := by
+  intro inp
+  refine ⟨by decide +kernel, fun σ hσ => ?_⟩
+  have hd : MgsData inp := ⟨by decide +kernel, by decide +kernel, by decide, Or.inl rfl, fun _ => ⟨?_, 7, rfl⟩⟩
+  · have hcons : ∀ cons, inp.partition = some cons → ∀ con ∈ cons,
+        con ≠ [] ∧ con.sum = inp.total ∧ (∀ x ∈ con, 0 ≤ x) ∧ (inp.weightInt = true → AllInt con) := by
+      intro cons hc con hcon
+      cases hc
+      simp only [List.mem_cons, List.not_mem_nil, or_false] at hcon
+      rcases hcon with rfl | rfl
+      · refine ⟨by simp, by decide +kernel, by decide +kernel, fun _ x hx => ?_⟩
+        simp only [List.mem_cons, List.not_mem_nil, or_false] at hx
+        rcases hx with rfl | rfl
+        · exact ⟨3, rfl⟩
+        · exact ⟨4, rfl⟩
+      · refine ⟨by simp, by decide +kernel, by decide +kernel, fun _ x hx => ?_⟩
+        simp only [List.mem_cons, List.not_mem_nil, or_false] at hx
+        rcases hx with rfl | rfl | rfl
+        · exact ⟨0, rfl⟩
+        · exact ⟨1, rfl⟩
+        · exact ⟨6, rfl⟩
+    obtain ⟨m, hm1, hm2, hm3, hm4⟩ := mgs_range_contains_optimum_partition inp σ hσ hd rfl hcons 1
+    have heff : mgsEffMult inp = 1 := by decide +kernel
+    have h3 : SolvableAt inp 3 := by
+      refine ⟨[1, 2, 4], rfl, ?_, ?_, ?_⟩
+      · rw [heff]; decide +kernel
+      · intro _ x hx
+        simp only [List.mem_cons, List.not_mem_nil, or_false] at hx
+        rcases hx with rfl | rfl | rfl
+        · exact ⟨1, rfl⟩
+        · exact ⟨2, rfl⟩
+        · exact ⟨4, rfl⟩
+      · intro cons hc con hcon
+        cases hc
+        simp only [List.mem_cons, List.not_mem_nil, or_false] at hcon
+        rcases hcon with rfl | rfl
+        · exact ⟨[0, 0, 1], rfl, by decide, by decide +kernel⟩
+        · exact ⟨[1, 2, 2], rfl, by decide, by decide +kernel⟩
+    have hle : m ≤ 3 := Nat.le_of_not_lt (fun hlt => hm4 3 (by omega) hlt h3)
+    have hge : 3 ≤ m := by
+      apply Nat.le_of_not_lt
+      intro hlt
+      obtain ⟨g, hlen, hg, _⟩ := hm2
+      rw [heff] at hg
+      exact no_small_genset_124 g (by omega) hg
+    have : m = 3 := by omega
+    rw [← this]; exact hm1
+  · intro x hx
+    simp only [inp, List.mem_cons, List.not_mem_nil, or_false] at hx
+    rcases hx with rfl | rfl | rfl
+    · exact ⟨1, rfl⟩
+    · exact ⟨2, rfl⟩
+    · exact ⟨4, rfl⟩
 
 /-- multiplicity 2 with the integer helper: `{1, 3}` (total 4) generates `2 = 2·1` and `4 = 1 + 3` -/
 example : ∃ a, Sat a (mgsLP { numbers := [2, 4], total := 4, maxMult := 2 } 2) := by
